@@ -12,6 +12,7 @@ import (
 	"verif.local/harness/drivers/envdrv"
 	"verif.local/harness/drivers/partdrv"
 	"verif.local/harness/drivers/srvdrv"
+	"verif.local/harness/drivers/tamperdrv"
 )
 
 func die(err error) {
@@ -67,6 +68,8 @@ func main() {
 		die(envdrv.Long(lc, *seed, *trace, *out))
 	case "part-replay":
 		die(partdrv.Replay(*in, *trace, *out, "s", "p"))
+	case "tamper-replay":
+		die(tamperdrv.Replay(*in, *trace, *out, *seed, *long))
 	case "server-replay":
 		die(srvdrv.Replay(*in, *trace, *out, *seed, *conc, *long))
 	default:
